@@ -90,7 +90,7 @@ EncResult(j, s) ==
       e == EncodeType(d, id, s.val)
       r == DecodeFull(d, id, e.bytes)
   IN [job |-> j, k |-> "enc", label |-> s.label, val |-> s.val,
-      faults |-> e.faults, bytes |-> e.bytes,
+      faults |-> e.faults, bytes |-> e.bytes, chunks |-> e.chunks,
       rt |-> e.faults = {} /\ r.faults = {} /\ r.val = s.val]
 
 DecResult(j, s) ==
@@ -167,6 +167,22 @@ ReencodeInv ==
       /\ x.refaults \subseteq {"Unsupported"}
       /\ (x.refaults = {} => /\ Len(x.reenc) = Len(stim.bytes)
                              /\ DecodeFull(D(job), T(job), x.reenc).val = x.val)
+
+(* C17 at the design level: the twin description's encoding of the same     *)
+(* value has the same faults and length and is obtained by reversing the    *)
+(* octets of every chunk; chunks are disjoint and inside the encoding       *)
+DualityInv ==
+  stim.k = "enc" =>
+    LET d == D(job)  id == T(job)
+        e1 == EncodeType(d, id, stim.val)
+        e2 == EncodeType(Twin(d), id, stim.val)
+    IN /\ e1.faults = e2.faults
+       /\ Len(e1.bytes) = Len(e2.bytes)
+       /\ \A c \in 1..Len(e1.chunks) : e1.chunks[c].o >= 0 /\ e1.chunks[c].o + e1.chunks[c].n <= Len(e1.bytes)
+       /\ \A c1 \in 1..Len(e1.chunks), c2 \in 1..Len(e1.chunks) :
+             c1 < c2 => e1.chunks[c1].o + e1.chunks[c1].n <= e1.chunks[c2].o
+       /\ e2.bytes = Dual(e1.bytes, e1.chunks)
+       /\ e1.chunks = e2.chunks
 
 (* C06 at the design level (the Walk laws): converting a child value up to  *)
 (* an ancestor keeps its encoding, carries the constraint constants, and    *)
